@@ -5,11 +5,13 @@ no ZConfig imports).  Every string must give the reference value or ValueError (
 TypeError allowed for an unknown unit letter).  Key-normalising converters are idempotent.
 """
 
+import copy
 import itertools
 import os
 import shutil
 import socket
 import tempfile
+import zlib
 
 from zcv import refdt
 from zcv.core import Result, failure
@@ -106,17 +108,73 @@ def conv_for(name):
     return c
 
 
+_SCHEMAS = {}
+
+
+def through_schema(name, s):
+    """The same conversion reached through a schema: <key name='k' datatype=NAME/> and the text
+    'k <s>'.  -> ('ok', value) | ('err', exception type name, is a DataConversionError)"""
+    import io
+    import ZConfig
+    sch = _SCHEMAS.get(name)
+    if sch is None:
+        sch = _SCHEMAS[name] = ZConfig.loadSchemaFile(io.StringIO('<schema><key name="k" datatype="%s"/></schema>' % name))
+    try:
+        cfg, _ = ZConfig.loadConfigFile(sch, io.StringIO("k " + s + "\n"))
+        return ("ok", normalise(name, cfg.k))
+    except ZConfig.DataConversionError as e:
+        return ("err", type(e.exception).__name__ if isinstance(getattr(e, "exception", None), BaseException) else "?", True)
+    except BaseException as e:  # noqa
+        return ("err", type(e).__name__, False)
+
+
+def writable_in_a_text(s):
+    return bool(s) and s == s.strip() and "$" not in s and not any(c.isspace() and c not in " \t" for c in s) \
+        and not any(c in s for c in "\x85\u2028\u2029\x1c\x1d\x1e\x1f")
+
+
 def check(name, s):
     """-> (ref outcome kind, [(sig, detail)])"""
     ref = refdt.REF[name](s)
     conv = conv_for(name)
     try:
-        v = normalise(name, conv(s))
+        raw = conv(s)
+        v = normalise(name, raw)
         got = ("ok", v)
     except ValueError:
         got = ("err", "ValueError")
     except BaseException as e:  # noqa
         got = ("err", type(e).__name__)
+    extra = []
+    if got[0] == "ok" and isinstance(raw, (list, dict, set)):
+        # what the application does with the value it received is its own business
+        keep = copy.deepcopy(raw)
+        got = ("ok", copy.deepcopy(v))
+        if isinstance(raw, list):
+            raw.append("zcv-mutated")
+            raw.reverse()
+        else:
+            raw.clear()
+        try:
+            again = conv(s)
+            if again != keep:
+                extra.append(("%s:result-shared-between-conversions" % name, "%r -> %r after the first result was changed in place" % (s, again)))
+        except BaseException as e:  # noqa
+            extra.append(("%s:result-shared-between-conversions" % name, "%r -> %s" % (s, type(e).__name__)))
+    if zlib.crc32((name + "\0" + s).encode("utf-8", "surrogatepass")) % 64 == 0 and writable_in_a_text(s) \
+            and not name.startswith("existing-") and name != "locale":
+        via = through_schema(name, s)
+        if got[0] == "ok":
+            if via[0] != "ok" or not same(via[1], got[1]):
+                extra.append(("%s:differs-through-a-schema" % name, "%r -> %r directly, %r as the value of a key" % (s, got[1], via[1:])))
+        elif got[1] == "ValueError":
+            if via[0] != "err" or not via[2]:
+                extra.append(("%s:differs-through-a-schema" % name, "%r -> ValueError directly, %r as the value of a key" % (s, via)))
+        elif via[0] != "err" or via[2] or via[1] != got[1]:
+            # an exception that is not a ValueError is the datatype's own and passes through
+            extra.append(("%s:differs-through-a-schema" % name, "%r -> %s directly, %r as the value of a key" % (s, got[1], via)))
+    if extra:
+        return ref[0], extra
     if ref[0] == "unspec":
         if got[0] == "err" and got[1] not in (("ValueError", "TypeError") if name == "timedelta" else ("ValueError",)):
             return ref[0], [("%s:wrong-exception:%s" % (name, got[1]), "%r -> %s" % (s, got[1]))]
